@@ -36,7 +36,8 @@ def required_cells(tier):
     return ["excluded-file-defines-macro-others-test", "excluded-compiled-file", "excluded-header", "out-of-root-header",
             "out-of-root-header-defines-macro", "pattern:path", "pattern:dir", "pattern:ext", "pattern:anchored-dir", "pattern:case-variant", "all-files-excluded",
             "cli:-x-vs-toml", "cli:-x-plus-toml", "cli:tree", "cli:cov", "compiled-file-outside-root",
-            "configuration-via-load_database", "code-base-of-two-directories", "outside-header-included-through-link-in-root", "code-base-of-two-directories:name-prefix-related"]
+            "configuration-via-load_database", "code-base-of-two-directories", "outside-header-included-through-link-in-root", "code-base-of-two-directories:name-prefix-related",
+            "cli:directory-only-wildcard-pattern", "cli:tree-front-end-twice-in-one-process"]
 
 
 def attribution(state, case, base):
@@ -195,6 +196,42 @@ def check_case(ctx, git, case, base, cls, do_cli=False):
         multi_directory_check(ctx, git, case, base, conf, attr0, inroot, realroot, cls)
 
 
+def tree_twice_in_one_process(ctx, base):
+    """The cbi-tree front end called twice in ONE interpreter (as a library user or a test-suite would): first with an
+    analysis file that excludes a header, then with one that excludes nothing.  The second call lists the header."""
+    acc = ctx.acc
+    d = os.path.join(base, "twice")
+    shutil.rmtree(d, ignore_errors=True)
+    os.makedirs(d)
+    for rel, text in (("main.c", "#include \"config.h\"\nint m;\n"), ("config.h", "#define C 1\nint c;\n")):
+        with open(os.path.join(d, rel), "w") as f:
+            f.write(text)
+    with open(os.path.join(d, "db.json"), "w") as f:
+        json.dump([{"file": "main.c", "directory": d, "arguments": ["gcc", "-c", "main.c"]}], f)
+    with open(os.path.join(d, "first.toml"), "w") as f:
+        f.write('[codebase]\nexclude = ["config.h"]\n\n[platform.p]\ncommands = "db.json"\n')
+    with open(os.path.join(d, "second.toml"), "w") as f:
+        f.write('[platform.p]\ncommands = "db.json"\n')
+    script = ("import sys\nfrom codebasin import tree\n"
+              "for a in (['first.toml'], ['-p', 'p', 'first.toml'], ['second.toml']):\n"
+              "    print('@@RUN', flush=True)\n"
+              "    try:\n        tree.cli(a)\n    except SystemExit:\n        pass\n"
+              "    sys.stdout.flush()\n")
+    import subprocess
+    from cbimon import core
+    p = subprocess.run([core.PY, "-c", script], cwd=d, env=core.worker_env(), capture_output=True, text=True, timeout=300)
+    acc.hook("cli-runs")
+    cells = {"cli:tree-front-end-twice-in-one-process"}
+    sections = p.stdout.split("@@RUN")[1:]
+    observed = " ".join(str("config.h" in x) for x in sections)
+    if p.returncode != 0 or observed != "False False True":
+        acc.violated({"input": {"scenario": "tree twice"}, "witness": {"kind": "second cbi-tree call in one process is influenced by the first",
+                                                                          "expected": "False False True", "observed": observed, "stderr": p.stderr[-300:]}},
+                     cells=cells, cls="cli")
+    else:
+        acc.held(cells=cells, cls="cli")
+
+
 def multi_directory_check(ctx, git, case, base, conf, attr0, inroot, realroot, cls):
     """The code base given as two directories (library API): each pattern is read relative to the directory that holds
     the file, so the lines that remain are the union of what the two single-directory code bases keep."""
@@ -250,6 +287,10 @@ def cli_check(ctx, git, case, base, rng, inroot, attr0):
     toml = c08.write_dbs(case, base)
     sub = rng.sample(inroot, max(2, len(inroot) // 3))
     pats = ["/" + x for x in sub]
+    # directory-only patterns with wildcards: the trailing slash is part of their meaning
+    pats += [[], ["src/*/"], ["*c/", "s*b/"]][len(inroot) % 3]
+    if len(inroot) % 3:
+        acc.cells["cli:directory-only-wildcard-pattern"] += 1
     ign = git.ignored(realroot, pats, inroot)
     members = [r for r in inroot if not ign.get(r, False)]
     problems = []
@@ -317,6 +358,8 @@ def run_shard(ctx):
     b = bounds(ctx.tier)
     git = GitIgnore(ctx.scratch)
     base = os.path.join(ctx.scratch, "c10")
+    if ctx.shard == 0:
+        tree_twice_in_one_process(ctx, base)
     rng = ctx.rng("cases")
     for i in range(b["cases"]):
         small = rng.random() < 0.4
